@@ -11,7 +11,7 @@
     and [VSet []].  Non-mutation of the operands is not a theorem: Gallina functions cannot
     mutate; on the code it is checked by operand snapshots in harness/props/c14.py. *)
 From Coq Require Import List ZArith Bool.
-From MV Require Import Schema.Partial Schema.PartialProofs.
+From MV Require Import Schema.Partial Schema.PartialProofs Schema.PartialHarvest.
 Import ListNotations.
 Local Open Scope Z_scope.
 
@@ -181,6 +181,99 @@ Theorem C14_complete_typed : forall t o, complete t o = true -> has_ty t (to_par
 Proof. exact complete_has_ty. Qed.
 Print Assumptions C14_complete_typed.
 
+(** ** The harvest pipeline
+
+    [harvest ts rp outs] is [harvester.harvest(schema, sources, return_partial=rp)] on the
+    partials [outs] the sources returned (in source order).  What it guarantees: the result is
+    the fold of the outputs from the empty partial *without* overwrite permission.  (The
+    docstring's "the newer value by a later harvester will overwrite an existing one" does not
+    describe the code: a second value for an atomic field raises - which is the behaviour C14
+    demands without overwrite permission: nothing is lost silently.) *)
+
+(** [PartialModel.merge] of any number of arguments, computed from the first argument as the
+    code does, is the fold from the empty partial. *)
+Theorem C14_merge_variadic_is_fold : forall ow ts xs, Forall (has_ty (TObj ts)) xs ->
+  merge_star ow (empty_of ts) xs = merge_all ow (empty_of ts) xs.
+Proof. exact merge_star_fold. Qed.
+Print Assumptions C14_merge_variadic_is_fold.
+
+Theorem C14_harvest_is_fold : forall ts outs, Forall (has_ty (TObj ts)) outs ->
+  harvest ts true outs = merge_all false (empty_of ts) outs.
+Proof. exact harvest_is_fold. Qed.
+Print Assumptions C14_harvest_is_fold.
+
+Theorem C14_harvest_complete_is_fold : forall ts outs, Forall (has_ty (TObj ts)) outs ->
+  harvest ts false outs = obind (merge_all false (empty_of ts) outs) (from_partial (TObj ts)).
+Proof. exact harvest_complete_is_fold. Qed.
+Print Assumptions C14_harvest_complete_is_fold.
+
+Theorem C14_harvest_typed : forall ts outs m, Forall (has_ty (TObj ts)) outs ->
+  harvest ts true outs = Some m -> has_ty (TObj ts) m.
+Proof. exact harvest_typed. Qed.
+Print Assumptions C14_harvest_typed.
+
+(** Two sources providing an atomic value for the same place make the pipeline raise,
+    wherever they stand among the sources and whatever the others return. *)
+Theorem C14_harvest_conflict_raises : forall ts rp l1 a l2 b l3 p u v,
+  at_path p a = Some (VAtom u) -> at_path p b = Some (VAtom v) ->
+  harvest ts rp (l1 ++ a :: l2 ++ b :: l3) = None.
+Proof. exact harvest_conflict_raises. Qed.
+Print Assumptions C14_harvest_conflict_raises.
+
+(** When it does not raise, every atomic value any source provided is in the result,
+    unchanged (no source is silently overruled). *)
+Theorem C14_harvest_keeps_atoms : forall ts outs m a p x,
+  harvest ts true outs = Some m -> In a outs -> at_path p a = Some (VAtom x) ->
+  at_path p m = Some (VAtom x).
+Proof. exact harvest_keeps_atoms. Qed.
+Print Assumptions C14_harvest_keeps_atoms.
+
+(** ** ignore_invalid: the cast keeps exactly the well-typed fields *)
+
+Theorem C14_ignore_invalid_typed : forall ts raw v, to_partial_ii ts raw = Some v -> has_ty (TObj ts) v.
+Proof. exact to_partial_ii_typed. Qed.
+Print Assumptions C14_ignore_invalid_typed.
+
+Theorem C14_ignore_invalid_valid_unchanged : forall ts v, has_ty (TObj ts) v -> to_partial_ii ts v = Some v.
+Proof. exact to_partial_ii_valid. Qed.
+Print Assumptions C14_ignore_invalid_valid_unchanged.
+
+Theorem C14_ignore_invalid_fieldwise : forall ts fs i, (i < length ts)%nat ->
+  nth i (sanitize ts fs) None =
+  match nth i fs None with
+  | Some v => if has_tyb (snd (nth i ts (Opt, TAtom))) v then Some v else None
+  | None => None
+  end.
+Proof. exact sanitize_nth. Qed.
+Print Assumptions C14_ignore_invalid_fieldwise.
+
+Theorem C14_merge_ignore_invalid_valid : forall ow ts a v,
+  has_ty (TObj ts) v -> merge_ii ow ts a v = merge ow a v.
+Proof. exact merge_ii_valid. Qed.
+Print Assumptions C14_merge_ignore_invalid_valid.
+
+Theorem C14_merge_ignore_invalid_closed : forall ow ts a raw r, has_ty (TObj ts) a ->
+  merge_ii ow ts a raw = Some r -> has_ty (TObj ts) r.
+Proof. exact merge_ii_closed. Qed.
+Print Assumptions C14_merge_ignore_invalid_closed.
+
+(** ** Lists and sets of models: elements are opaque, identified by an injective numbering *)
+
+Theorem C14_set_union_by_element_identity : forall (E : Type) (key : E -> Z),
+  (forall e1 e2, key e1 = key e2 -> e1 = e2) ->
+  forall l m e, In (key e) (canon (map key l ++ map key m)) <-> In e l \/ In e m.
+Proof. exact union_by_key. Qed.
+Print Assumptions C14_set_union_by_element_identity.
+
+Theorem C14_set_observed_once : forall l, NoDup (canon l).
+Proof. exact canon_nodup. Qed.
+Print Assumptions C14_set_observed_once.
+
+Theorem C14_list_concat_by_element : forall (E : Type) (key : E -> Z) (l m : list E),
+  map key l ++ map key m = map key (l ++ m).
+Proof. exact concat_by_key. Qed.
+Print Assumptions C14_list_concat_by_element.
+
 (** ** The rule of the pinned tree ([return v_new or v_old]) is not a monoid *)
 
 Theorem C14_pinned_identity_refuted :
@@ -250,3 +343,42 @@ Example C14_pinned_truthy_agrees :
   merge_pinned false (VObj [None; Some (VList [1%Z])]) (VObj [Some (VAtom 5); Some (VList [2%Z])])
   = merge false (VObj [None; Some (VList [1%Z])]) (VObj [Some (VAtom 5); Some (VList [2%Z])]).
 Proof. vm_compute. reflexivity. Qed.
+
+(** A recursive schema (one optional atom, one optional list, the schema itself) unrolled to
+    depth 5: values nested four and five levels deep are merged level by level, a conflict
+    at depth 4 refuses the whole merge, and regrouping does not matter. *)
+Example C14_nonvacuous_deep :
+  let t0 := TObj [(Opt, TAtom); (Opt, TList); (Opt, TAtom)] in
+  let t1 := TObj [(Opt, TAtom); (Opt, TList); (Opt, t0)] in
+  let t2 := TObj [(Opt, TAtom); (Opt, TList); (Opt, t1)] in
+  let t3 := TObj [(Opt, TAtom); (Opt, TList); (Opt, t2)] in
+  let t4 := TObj [(Opt, TAtom); (Opt, TList); (Opt, t3)] in
+  let n a l r := VObj [a; l; r] in
+  let x := n (Some (VAtom 1)) None (Some (n None None (Some (n None (Some (VList [1])) (Some (n None None
+             (Some (n (Some (VAtom 0)) None None)))))))) in
+  let y := n None None (Some (n (Some (VAtom 2)) None (Some (n None (Some (VList [2])) (Some (n None None
+             (Some (n None (Some (VList [])) None)))))))) in
+  let z := n None (Some (VList [9])) (Some (n None None (Some (n None None (Some (n (Some (VAtom 3)) None
+             (Some (n None None None)))))))) in
+  let w := n None None (Some (n None None (Some (n None None (Some (n None None
+             (Some (n (Some (VAtom 5)) None None)))))))) in
+  has_ty t4 x /\ has_ty t4 y /\ has_ty t4 z /\ has_ty t4 w /\
+  obind (merge false x y) (fun xy => merge false xy z) =
+    Some (n (Some (VAtom 1)) (Some (VList [9])) (Some (n (Some (VAtom 2)) None (Some (n None (Some (VList [1; 2]))
+            (Some (n (Some (VAtom 3)) None (Some (n (Some (VAtom 0)) (Some (VList [])) None))))))))) /\
+  obind (merge false y z) (fun yz => merge false x yz) = obind (merge false x y) (fun xy => merge false xy z) /\
+  merge false x w = None /\ obind (merge false y w) (fun yw => merge false x yw) = None /\
+  option_map (at_path [2; 2; 2; 2; 0]%nat) (merge true x w) = Some (Some (VAtom 5)) /\
+  harvest [(Opt, TAtom); (Opt, TList); (Opt, t3)] true [x; y; z] = obind (merge false x y) (fun xy => merge false xy z) /\
+  harvest [(Opt, TAtom); (Opt, TList); (Opt, t3)] true [y; x; z; w] = None.
+Proof. vm_compute. repeat split. Qed.
+
+(** ignore_invalid: a list where an atom is expected and a nested object with one bad field
+    are dropped as whole fields; the rest is kept and merged. *)
+Example C14_nonvacuous_ignore_invalid :
+  let ts := [(Opt, TAtom); (Opt, TList); (Opt, TObj [(Opt, TAtom); (Opt, TSet)])] in
+  let raw := VObj [Some (VList [1]); Some (VList [2]); Some (VObj [Some (VAtom 3); Some (VAtom 4)])] in
+  to_partial_ii ts raw = Some (VObj [None; Some (VList [2]); None]) /\
+  merge_ii false ts (VObj [Some (VAtom 7); Some (VList [1]); None]) raw =
+    Some (VObj [Some (VAtom 7); Some (VList [1; 2]); None]).
+Proof. vm_compute. repeat split. Qed.
